@@ -191,7 +191,10 @@ func fillMapFromKeyArgs(s *slip.Scope, args slip.List, m map[string]slip.Object,
 		}
 		key := strings.ToLower(string(sym))
 		i++
-		m[key] = args[i]
+		// The leftmost value is used when a keyword appears more than once.
+		if _, has := m[key]; !has {
+			m[key] = args[i]
+		}
 	}
 }
 
